@@ -285,9 +285,19 @@ mod std_build {
         }
         note!(cx, "build_raw(ptr page+{}, size {:#x}, flags {:#x})", mis, size, flags);
         cx.nt(if mis == 0 { "raw_aligned" } else { "raw_misaligned" });
+        // the builder also lets a caller name the file that backs its mapping
+        let fo = if t.chance(1, 3) { Some(FileOffset::new(memfd((pages * PS) as u64), (PS * t.idx(2)) as u64)) } else { None };
         interpose::begin();
         // SAFETY: the range lies inside the harness mapping, which outlives the region.
-        let r = unsafe { MmapRegion::<()>::build_raw((base + mis) as *mut u8, size, prot, flags) };
+        let r = unsafe {
+            match &fo {
+                Some(f) => {
+                    cx.nt("raw_with_file_offset");
+                    MmapRegionBuilder::<()>::new(size).with_raw_mmap_pointer((base + mis) as *mut u8).with_file_offset(f.clone()).with_mmap_prot(prot).with_mmap_flags(flags).build()
+                }
+                None => MmapRegion::<()>::build_raw((base + mis) as *mut u8, size, prot, flags),
+            }
+        };
         let res = match r {
             Err(e) => {
                 ensure!(mis != 0, "page-aligned external pointer refused: {:?}", e);
@@ -298,6 +308,11 @@ mod std_build {
                 ensure!(mis == 0, "misaligned external pointer (page+{}) accepted", mis);
                 ensure!(!region.owned(), "region around an external mapping reports owned() == true");
                 ensure!(region.as_ptr() as usize == base && region.size() == size && region.prot() == prot && region.flags() == flags, "raw region attributes differ from the request");
+                match (region.file_offset(), &fo) {
+                    (None, None) => {}
+                    (Some(a), Some(b)) => ensure!(a.start() == b.start() && std::sync::Arc::ptr_eq(a.arc(), b.arc()), "raw region: file_offset() reports start {:#x}, asked {:#x}", a.start(), b.start()),
+                    (a, b) => return Err(format!("raw region: file_offset() is {:?}, the builder was given {:?}", a.map(|x| x.start()), b.as_ref().map(|x| x.start()))),
+                }
                 drop(region);
                 Ok(())
             }
